@@ -221,4 +221,72 @@ Section ErrKind.
       + pose proof (convert_no_err g r) as N. rewrite H in N. contradiction.
       + inversion H; subst. eapply run_from_index_err; eauto.
   Qed.
+
+  (* ---- the error channel of the two collecting entry points (every graph state, every argument) ---- *)
+  Lemma has_node_no_err (g : gstate) x : no_err (has_node teqb g x).
+  Proof.
+    unfold has_node, get_node. destruct (contains_key teqb x (nodes_map g)); [|exact I].
+    destruct (get_node_index teqb g x); exact I.
+  Qed.
+
+  Lemma has_nodes_no_err (g : gstate) xs : no_err (has_nodes teqb g xs).
+  Proof.
+    induction xs as [|x t IH]; cbn [has_nodes]; [exact I|].
+    apply no_err_bind; [apply has_node_no_err|]. intros b _. destruct b; [exact IH | exact I].
+  Qed.
+
+  (* multi_source: NodeNotFound (up-front check, or — on an incoherent state only — a per-source lookup)
+     or ContradictoryPaths (a per-source search) *)
+  Theorem multi_source_err threads (g : gstate) weighted sources target cutoff fo wp k :
+    multi_source teqb threads g weighted sources target cutoff fo wp = Err k ->
+    k = NodeNotFound \/ k = ContradictoryPaths.
+  Proof.
+    unfold multi_source. intros H.
+    pose proof (has_nodes_no_err g sources) as N1.
+    destruct (has_nodes teqb g sources) as [b| | |]; cbn [bind] in H; try discriminate; [|contradiction].
+    destruct (negb b); [inversion H; auto|].
+    assert (N2 : no_err (match target with Some t => has_node teqb g t | None => Ok true end))
+      by (destruct target; [apply has_node_no_err | exact I]).
+    destruct (match target with Some t => has_node teqb g t | None => Ok true end) as [tb| | |]; cbn [bind] in H;
+      try discriminate; [|contradiction].
+    destruct (negb tb); [inversion H; auto|].
+    match type of H with context [omapM ?f sources] => set (one := f) in H end.
+    assert (Hom : omapM one sources = Err k).
+    { destruct (parallel g threads); destruct (omapM one sources); cbn [bind] in H; try discriminate; exact H. }
+    clear H. induction sources as [|s ss IH]; cbn [omapM] in Hom; [discriminate|].
+    unfold one at 1 in Hom.
+    destruct (single_source teqb g weighted s target cutoff fo wp) as [m|k'| |] eqn:E; cbn [bind] in Hom; try discriminate.
+    - destruct (omapM one ss); cbn [bind] in Hom; try discriminate. apply IH. exact Hom.
+    - inversion Hom; subst k'. eapply single_source_err; eauto.
+  Qed.
+
+  (* all_pairs: EdgeWeightNotSpecified (ensure_weighted), NodeNotFound (absent target) or
+     ContradictoryPaths (a per-source search) *)
+  Theorem all_pairs_err threads (g : gstate) weighted target cutoff fo wp k :
+    all_pairs teqb threads g weighted target cutoff fo wp = Err k ->
+    k = EdgeWeightNotSpecified \/ k = NodeNotFound \/ k = ContradictoryPaths.
+  Proof.
+    unfold all_pairs. intros H.
+    destruct (if weighted then ensure_weighted g else Ok tt) as [u| | |] eqn:E1; cbn [bind] in H; try discriminate.
+    2:{ inversion H; subst. destruct weighted; [|discriminate]. unfold ensure_weighted in E1.
+        destruct (edges_have_weight g); inversion E1. auto. }
+    destruct (match target with Some t => do _ <- get_node_index teqb g t; Ok tt | None => Ok tt end) as [u'| | |] eqn:E2;
+      cbn [bind] in H; try discriminate.
+    2:{ inversion H; subst. destruct target as [t|]; [|discriminate]. unfold get_node_index in E2.
+        destruct (lookup teqb t (nodes_map g)); cbn in E2; inversion E2. auto. }
+    right. right.
+    assert (Hit : err_only ContradictoryPaths (all_pairs_iter teqb g weighted target cutoff fo wp)).
+    { unfold all_pairs_iter. apply err_only_bind.
+      - apply no_err_only. destruct target as [t|]; [|exact I]. apply no_err_bind; [|intros i _; exact I].
+        unfold unwrap_result. destruct (get_node_index teqb g t); exact I.
+      - intros ti _. apply err_only_omapM. intros i _.
+        apply err_only_bind; [apply run_from_index_err_kind | intros r _; exact I]. }
+    assert (Hall : err_only ContradictoryPaths (all_pairs teqb threads g weighted target cutoff fo wp)).
+    { unfold all_pairs. rewrite E1, E2. cbn [bind]. apply err_only_bind.
+      - destruct (parallel g threads); exact Hit.
+      - intros vecs _. apply no_err_only. apply no_err_bind; [|intros l _; exact I].
+        apply no_err_omapM. intros sv. apply no_err_bind; [apply name_of_index_no_err|]. intros nm _.
+        apply no_err_bind; [apply convert_no_err | intros m _; exact I]. }
+    unfold all_pairs in Hall. rewrite E1, E2 in Hall. cbn [bind] in Hall. rewrite H in Hall. exact Hall.
+  Qed.
 End ErrKind.
